@@ -17,11 +17,20 @@ pub struct OverlappingFunctionCheck;
 impl LintPass for OverlappingFunctionCheck {
     fn run(cfg: &Cfg, errors: &mut DiagnosticManager) {
         for node in cfg {
-            // Capture entry points that are part of more than one function
-            // NOTE: We only give an error for the first line of a function,
-            //       even though there may be many overlapping instructions.
-            //       This is done to not overwhelm the user with errors.
-            if node.functions().len() > 1 && node.is_function_entry_with_func().is_some() {
+            // Capture where a stretch of code that is part of more than one
+            // function begins: a function entry, or an instruction that is
+            // reached from one that belongs to fewer functions (two functions
+            // that share a tail).
+            // NOTE: We only give an error for the first line of such a
+            //       stretch, even though there may be many overlapping
+            //       instructions. This is done to not overwhelm the user with
+            //       errors.
+            let begins_here = node.is_function_entry_with_func().is_some()
+                || node
+                    .prevs()
+                    .iter()
+                    .any(|prev| prev.functions().len() < node.functions().len());
+            if node.functions().len() > 1 && begins_here {
                 // HACK: Create a dummy label with the same name
                 let labels = node.labels();
                 let labels = labels
@@ -35,12 +44,12 @@ impl LintPass for OverlappingFunctionCheck {
                     .collect::<Vec<_>>();
                 let label = labels.first();
 
-                if let Some(l) = label {
-                    errors.push(LintError::NodeInManyFunctions(
-                        ParserNode::Label(l.clone()),
-                        node.functions().clone().into_iter().collect::<Vec<_>>(),
-                    ));
-                }
+                // Without a label, the instruction itself is what is shared
+                let place = label.map_or_else(|| node.node(), |l| ParserNode::Label(l.clone()));
+                errors.push(LintError::NodeInManyFunctions(
+                    place,
+                    node.functions().clone().into_iter().collect::<Vec<_>>(),
+                ));
             }
         }
     }
